@@ -160,7 +160,11 @@ def cliIdx (w : World) (name : String) : Option Nat := w.cliConfs.findIdx? fun c
 def srvIdxW (w : World) (name : String) : Option Nat := w.servers.findIdx? fun s => s.conf.name = strBytes name
 
 /-- execute one world op; returns new state and the output line -/
-def worldOp (st : Option World) (op : String) (args tr : List String) : Option World × String :=
+structure DState where
+  w : World
+  cfg : CfgAcc
+
+def worldOp1 (st : Option World) (op : String) (args tr : List String) : Option World × String :=
   let t := parseTranscript tr
   match op, args, st with
   | "cfg", _ :: toks, _ =>
@@ -233,5 +237,32 @@ def worldOp (st : Option World) (op : String) (args tr : List String) : Option W
     | none => (some w, "bad-op")
   | "radput", [b], some w => (some { w with radputOk := b = "1" }, "ok")
   | _, _, st => (st, "bad-op")
+
+end Drive
+
+namespace Drive
+open Rsp Rsp.Radmsg Rsp.Rewrite Rsp.World
+
+/-- world ops plus the ops that need the named rewrite blocks of the configuration -/
+def worldOp (st : Option DState) (op : String) (args tr : List String) : Option DState × String :=
+  match op, args, st with
+  | "cfg", _ :: toks, _ =>
+    let (w, out) := worldOp1 none op args tr
+    (match w, toks.foldlM parseCfgTok ({} : CfgAcc) with
+     | some w, some a => (some { w := w, cfg := a }, out)
+     | _, _ => (none, out))
+  | "rewrite", name :: attrs, some d =>
+    match attrs.mapM parseAttr with
+    | none => (some d, "bad-op")
+    | some as =>
+      let t := parseTranscript tr
+      let r := dorewrite (oracleOf t) (findRw d.cfg name) as
+      if r.ok then
+        (some d, "rv=1 " ++ showMsg { code := 1, id := 1, auth := zeros 16, attrs := r.attrs })
+      else (some d, "rv=0")
+  | _, _, some d =>
+    let (w, out) := worldOp1 (some d.w) op args tr
+    ((w.map fun w => { d with w := w }), out)
+  | _, _, none => (none, "bad-op")
 
 end Drive
